@@ -1,7 +1,7 @@
 (* C05 -- Deduplication answers are truthful.  Statements only. *)
 From Coq Require Import NArith Bool List.
 Import ListNotations.
-From XetModel Require Import Base.Codec Gen.ShardLayout Model.Merkle Model.Shard Proofs.CodecProofs Proofs.ShardProofs Proofs.DedupProofs Model.Dedup Proofs.PipelineProofs Proofs.ResolveProofs Proofs.BytesProofs Proofs.ShardWholeProofs Proofs.ShardDedupWholeProofs.
+From XetModel Require Import Base.Codec Gen.ShardLayout Model.Merkle Model.Shard Proofs.CodecProofs Proofs.ShardProofs Proofs.DedupProofs Proofs.SearchProofs Model.Dedup Proofs.PipelineProofs Proofs.ResolveProofs Proofs.BytesProofs Proofs.ShardWholeProofs Proofs.ShardDedupWholeProofs.
 Open Scope N_scope.
 
 (* "truthful" (Proofs/DedupProofs.v): 1 <= n <= |qs|; the segment names xorb c, spans [a, a+n) within c's chunks;
@@ -59,8 +59,29 @@ Theorem C05_ondisk_truthful_end_to_end : forall files cass key created expiry,
   exists c, In c cass /\ truthful key c qs n s.
 Proof. intros files cass key created expiry A B C D E F G H I J probe qs n s. apply d_dedup_truthful; assumption. Qed.
 
+(* ... and the other direction: a chunk recorded in one of the shard's blocks is found (by its first query hash), for every
+   probe function and every key, provided at most eight table entries share its truncated hash (the lookup examines at most
+   eight candidates); the answer is then a real run as above *)
+Theorem C05_ondisk_complete : forall files cass key created expiry,
+  Forall wf_file files -> Forall wf_cas cass -> is_hash key -> is_u64 created -> is_u64 expiry ->
+  is_u64 (sum_ndisk cass) -> is_u64 (sum_materialized files) -> is_u64 (sum_nbytes cass) ->
+  Forall (fun c => Forall (fun ch => Forall (fun b => b < 256) (ce_hash ch)) (ci_chunks c)) cass ->
+  N.of_nat (length (d_bs files cass key created expiry)) < 4294967296 ->
+  forall probe q0 qr pre c post j ch, cass = pre ++ c :: post -> nth_error (ci_chunks c) j = Some ch -> ce_hash ch = keyed key q0 ->
+  (length (matching (truncate_hash (keyed key q0)) (d_ctbl cass)) <= 8)%nat ->
+  exists n s, dedup_query probe (d_bs files cass key created expiry) (d_ft files cass key created expiry) (q0 :: qr) = Found (Some (n, s))
+              /\ exists c', In c' cass /\ truthful key c' (q0 :: qr) n s.
+Proof. intros files cass key created expiry A B C D E F G H I J probe q0 qr pre c post j ch. apply d_dedup_complete; assumption. Qed.
+(* the premises are met by a concrete two-block shard *)
+Theorem C05_ondisk_complete_example :
+  exists n s, dedup_query probe_exact (d_bs [] [dx_c1; dx_c2] zero_hash 0 0) (d_ft [] [dx_c1; dx_c2] zero_hash 0 0) [repeat 14 32%nat; repeat 99 32%nat] = Found (Some (n, s))
+              /\ exists c', In c' [dx_c1; dx_c2] /\ truthful zero_hash c' [repeat 14 32%nat; repeat 99 32%nat] n s.
+Proof. exact dx_found. Qed.
+
 Print Assumptions C05_direct_truthful.
 Print Assumptions C05_direct_bytes_is_rec.
 Print Assumptions C05_inmem_truthful.
 Print Assumptions C05_local_lookup_truthful.
 Print Assumptions C05_ondisk_truthful_end_to_end.
+Print Assumptions C05_ondisk_complete.
+Print Assumptions C05_ondisk_complete_example.
